@@ -55,4 +55,4 @@ Section CompressorOneShot.
 End CompressorOneShot.
 
 (* DatagramProtocol.build_packet_from_datagram without converter: `except DeserializeError -> DatagramProtocolParseError` *)
-Definition dgram_build {P} (s : site) (o : ores P) : ores P := rehandle s o.
+Definition dgram_build {P} (s : trysite) (o : ores P) : ores P := rehandle s o.
